@@ -13,6 +13,9 @@
 //! ---
 //! <3
 
+#[cfg(feature = "verif")]
+#[macro_use]
+pub mod verif;
 pub mod aplang;
 pub mod interpreter;
 pub mod lexer;
